@@ -128,18 +128,19 @@ func NewEnvManager(tm *task.Manager, incomingEventCh chan event.Event) *Manager 
 					// If we got a TasksReleasedEvent, it must be matched with a pending
 					// environment teardown.
 
-					instance.mu.RLock()
+					// the pending channel is taken out of the map before the event is handed over: once the teardown
+					// has the event it registers the channel of its next release, which must not be deleted here
+					instance.mu.Lock()
 					thisEnvCh, ok := instance.pendingTeardownsCh[typedEvent.GetEnvironmentId()]
-					instance.mu.RUnlock()
+					if ok {
+						delete(instance.pendingTeardownsCh, typedEvent.GetEnvironmentId())
+					}
+					instance.mu.Unlock()
 
 					if ok {
 						thisEnvCh <- typedEvent
 						verifhook.Point("envman.released.delivered", "env", typedEvent.GetEnvironmentId().String())
-
-						instance.mu.Lock()
 						close(thisEnvCh)
-						delete(instance.pendingTeardownsCh, typedEvent.GetEnvironmentId())
-						instance.mu.Unlock()
 
 					} else {
 						// If there is no pending environment teardown, it means that the released task stopped
